@@ -17,6 +17,8 @@ import (
 	"time"
 
 	"github.com/hyperjumptech/grule-rule-engine/ast"
+	"github.com/hyperjumptech/grule-rule-engine/builder"
+	"github.com/hyperjumptech/grule-rule-engine/pkg"
 	"pgregory.net/rapid"
 
 	"verif/internal/facts"
@@ -34,6 +36,9 @@ const (
 	c20JSONRule = 1
 	c20JSONFact = 2
 	c20GRB      = 3
+	// the JSON -> GRL translation alone (no build): the translator is linear, so the open finding
+	// about the builder's cubic cost does not apply to it
+	c20JSONTranslate = 4
 
 	c20AllocBase   = 64 << 20  // 64 MiB
 	c20AllocPerB   = 256 << 10 // 256 KiB per input byte
@@ -43,7 +48,7 @@ const (
 	c20MaxInputLen = 64 << 10
 )
 
-var c20TargetName = []string{"grl", "jsonrule", "jsonfact", "grb"}
+var c20TargetName = []string{"grl", "jsonrule", "jsonfact", "grb", "jsontranslate"}
 
 type c20Input struct {
 	Target int    `json:"target"`
@@ -365,7 +370,7 @@ func c20Structure(rt *rapid.T, target int) []byte {
 			return []byte(b.String())
 		}
 	case c20JSONRule:
-		switch rapid.IntRange(0, 2).Draw(rt, "struct_kind") {
+		switch rapid.IntRange(0, 3).Draw(rt, "struct_kind") {
 		case 0:
 			s := `{"obj":"F.B"}`
 			for i := 0; i < n; i++ {
@@ -374,8 +379,21 @@ func c20Structure(rt *rapid.T, target int) []byte {
 			return []byte(`{"name":"D","when":` + s + `,"then":["Retract(\"D\")"]}`)
 		case 1:
 			return []byte(`{"name":"D","when":` + strings.Repeat(`{"not":[`, n*40) + `1` + strings.Repeat(`]}`, n*40) + `,"then":["x"]}`)
-		default:
+		case 2:
 			return []byte(`[` + strings.Repeat(`{"name":"D","when":"true","then":["Retract(\"D\")"]},`, n) + `{"name":"E","when":"true","then":["F.I64 = 1"]}]`)
+		default:
+			// arithmetic / comparison operators nested in each other, on the left and on the right
+			ops := []string{"plus", "minus", "mul", "eq", "gt", "band"}
+			s := `"F.I64"`
+			for i := 0; i < n*2; i++ {
+				op := ops[i%len(ops)]
+				if i%2 == 0 {
+					s = `{"` + op + `":[` + s + `,1]}`
+				} else {
+					s = `{"` + op + `":[2,` + s + `]}`
+				}
+			}
+			return []byte(`{"name":"D","when":{"gt":[` + s + `,0]},"then":[{"set":["F.I64",` + s + `]}]}`)
 		}
 	case c20JSONFact:
 		switch rapid.IntRange(0, 3).Draw(rt, "struct_kind") {
@@ -393,6 +411,14 @@ func c20Structure(rt *rapid.T, target int) []byte {
 }
 
 func c20GenInput(rt *rapid.T, paths []gen.PathInfo, stCfg gen.StateCfg) c20Input {
+	in := c20GenInput0(rt, paths, stCfg)
+	if in.Target == c20JSONRule && rapid.Bool().Draw(rt, "translate_only") {
+		in.Target = c20JSONTranslate
+	}
+	return in
+}
+
+func c20GenInput0(rt *rapid.T, paths []gen.PathInfo, stCfg gen.StateCfg) c20Input {
 	target := rapid.IntRange(0, 3).Draw(rt, "target")
 	mode := rapid.SampledFrom([]string{"random", "valid", "mutant", "mutant", "mutant", "structure"}).Draw(rt, "mode")
 	in := c20Input{Target: target}
@@ -520,7 +546,7 @@ func c20PastFirstStep(in c20Input) bool {
 	case c20GRL:
 		_, ok := recog.Lex(string(in.Data), false)
 		return ok
-	case c20JSONRule, c20JSONFact:
+	case c20JSONRule, c20JSONFact, c20JSONTranslate:
 		return json.Valid(in.Data)
 	case c20GRB:
 		return len(in.Data) > 16 && bytes.Contains(in.Data[:min(len(in.Data), 64)], []byte("kb"))
@@ -606,4 +632,70 @@ func init() {
 		}
 		return nil
 	}
+}
+
+// c20InProcess runs one loader in this process (native fuzz targets; the sandboxed child is used
+// by the main search).
+func c20InProcess(target int, data []byte) (status, detail string) {
+	defer func() {
+		if r := recover(); r != nil {
+			status = "panic"
+			detail = strings.ReplaceAll(fmt.Sprint(r), "\n", " ")
+			if len(detail) > 200 {
+				detail = detail[:200]
+			}
+		}
+	}()
+	switch target {
+	case c20GRL:
+		lib := ast.NewKnowledgeLibrary()
+		if err := builder.NewRuleBuilder(lib).BuildRuleFromResource("c", "1", pkg.NewBytesResource(data)); err != nil {
+			return "error", "build"
+		}
+		return "ok", ""
+	case c20JSONRule:
+		res, err := pkg.NewJSONResourceFromResource(pkg.NewBytesResource(data))
+		if err != nil {
+			return "error", "resource"
+		}
+		lib := ast.NewKnowledgeLibrary()
+		if err := builder.NewRuleBuilder(lib).BuildRuleFromResource("c", "1", res); err != nil {
+			return "error", "json-or-build"
+		}
+		return "ok", ""
+	case c20JSONTranslate:
+		res, err := pkg.NewJSONResourceFromResource(pkg.NewBytesResource(data))
+		if err != nil {
+			return "error", "resource"
+		}
+		if _, err := res.Load(); err != nil {
+			return "error", "json"
+		}
+		return "ok", ""
+	case c20JSONFact:
+		if err := ast.NewDataContext().AddJSON("J", data); err != nil {
+			return "error", "json"
+		}
+		return "ok", ""
+	case c20GRB:
+		lib := ast.NewKnowledgeLibrary()
+		if _, err := lib.LoadKnowledgeBaseFromReader(bytes.NewReader(data), true); err != nil {
+			return "error", "load"
+		}
+		return "ok", ""
+	}
+	return "error", "unknown target"
+}
+
+// storedImage returns the binary image of a knowledge base built from text.
+func storedImage(text string) []byte {
+	lib, err := obs.Build(text)
+	if err != nil {
+		return nil
+	}
+	var buf bytes.Buffer
+	if err := storeKB(lib, &buf); err != nil {
+		return nil
+	}
+	return buf.Bytes()
 }
